@@ -705,18 +705,26 @@ pub fn worker_c14(ctx: &WorkerCtx) -> WorkerOut {
 
 pub fn worker_c19(ctx: &WorkerCtx) -> WorkerOut {
     let q = ctx.quick();
-    let sp = space(q, 3);
+    let mut sp = space(q, 3);
+    {
+        // plus long periodic / bursty traces that reach the packets-per-second logic and the aggregate delays
+        let mut t = (*sp.traces).clone();
+        t.extend(c14_long_traces(true).into_iter().filter(|x| x.len() <= 21).step_by(if q { 3 } else { 1 }));
+        sp.traces = Arc::new(t);
+    }
     let delays = [0, 2 * US];
     let all: Vec<u16> = (0..sp.lib.len() as u16).collect();
     let mut sets: Vec<(Vec<u16>, Vec<u16>)> = vec![(vec![], vec![])];
     for (k, i) in all.iter().enumerate() {
-        let j = all[(k * 31 + 7) % all.len()];
-        let l = all[(k * 17 + 3) % all.len()];
-        sets.push((vec![*i, j], vec![]));
-        sets.push((vec![*i], vec![l]));
-        if !q {
-            sets.push((vec![], vec![*i, l]));
-            sets.push((vec![*i, j], vec![l]));
+        for r in 0..(if q { 4 } else { 12 }) {
+            let j = all[(k * 31 + 7 + r * 53) % all.len()];
+            let l = all[(k * 17 + 3 + r * 29) % all.len()];
+            sets.push((vec![*i, j], vec![]));
+            sets.push((vec![*i], vec![l]));
+            if r % 2 == 0 {
+                sets.push((vec![], vec![*i, l]));
+                sets.push((vec![*i, j], vec![l]));
+            }
         }
     }
     let basep = product(&sp, sets, &delays, &[0, 1], &[true, false], &[0]);
@@ -724,7 +732,10 @@ pub fn worker_c19(ctx: &WorkerCtx) -> WorkerOut {
     let pps_menu: [Option<usize>; 8] = [None, Some(1), Some(2), Some(10), Some(1000), Some(u32::MAX as usize), Some(1usize << 32), Some(usize::MAX)];
     let mut jobs = vec![];
     for (i, j) in base.iter().enumerate() {
-        if q && sp.traces[j.trace as usize].len() == 3 && i % 5 != 0 {
+        if q && sp.traces[j.trace as usize].len() == 3 && i % 2 != 0 {
+            continue;
+        }
+        if sp.traces[j.trace as usize].len() > 4 && i % 3 != 0 {
             continue;
         }
         // rotate through the stop / filter / pps / seed grid; every grid point is hit by many systems
